@@ -2,6 +2,7 @@ package dawn
 
 import (
 	"encoding/json"
+	"errors"
 	"fmt"
 	"os"
 	"path/filepath"
@@ -119,11 +120,17 @@ func (proj *Project) loadIndex() error {
 	}
 
 	for _, flag := range index.Flags {
+		if flag == nil {
+			return errors.New("malformed index: null flag")
+		}
 		proj.flags[flag.Name] = flag
 	}
 
 	for _, summary := range index.Targets {
 		l := summary.Label
+		if l == nil {
+			return errors.New("malformed index: target without a label")
+		}
 
 		info, err := proj.loadTargetInfo(l)
 		if err != nil {
